@@ -147,6 +147,19 @@ def judge(ctx, recs, chunk=25000, par=12):
     return tot
 
 
+# complete small programs of the kind users write, formatted and not: variables of every kind feeding one another's neighbourhood
+# (a builtin argument that is an identifier is refused when the file is loaded -- `--fmt` must then leave the file alone),
+# named outputs, templates, continuation-looking command lines
+HANDMADE = [
+    b'ROOT := "build/output"\nBIN := join(ROOT, "bin")\n\n# Build it\ntask build("**/*.go") -> BIN {\n    go build -o {{.BIN}} ./...\n}\n',
+    b'ROOT:="build/output"\nGIT := exec("echo abc")\nOUT:=join( GIT ,ROOT, "x" )\ntask t( "*.go" )->OUT{ echo {{.OUT}} }\n',
+    b'# Version\nVERSION := exec("echo 1.2.3")\nNAME := "spok"\n\n# Say it\ntask say() {\n    echo "{{.NAME}} \\\n  {{.VERSION}}"\n    echo done\n}\n',
+    b'task a() {\n\techo one \\\n\techo two\n}\n\ntask b(a) { echo b }\n',
+    b'A := "1"\nB := join(A)\nC := exec(A)\n',
+    b'DIST := join("dist", "pkg")\n# Pack\ntask pack("*.txt") -> (DIST, "out.tar") {\n    tar cf out.tar *.txt\n}\n\n# Default\ntask default(pack) {\n    echo ok\n}\n',
+]
+
+
 def gather_inputs(ctx, pid, tier):
     """-> list of (bytes, expected tree or None, predicted tokens or None, source tag)"""
     items = []
@@ -158,6 +171,14 @@ def gather_inputs(ctx, pid, tier):
         rt = repo_texts()
         for b in rt:
             items.append((b, None, None, "repo"))
+        # very long lines (beyond any 64 KiB line buffer) before and at a syntax error
+        big = b"x" * 70000
+        for b in (b"# " + big + b'\nNAME := "unterminated\n', b'A := "' + big + b'"\ntask t {\n', b"task t() {\n    echo " + big + b"\n}\ntask u( {\n",
+                  b"# c\n" + b'B := "' + big + b"\n", b"task t() {\n    echo ok\n}\n# " + big + b"\ntask (\n", b"V := " + big + b"(\"a\") x\n"):
+            items.append((b, None, None, "longline"))
+        for b in HANDMADE:
+            items.append((b, None, None, "handmade"))
+            items.append((b.replace(b"\n", b"\r\n"), None, None, "handmade"))
         for b in prefixes(rt, cap=600 if tier == "quick" else 4000):
             items.append((b, None, None, "repo-prefix"))
     items += syn_sources.generated(ctx, pid, tier)
@@ -276,7 +297,7 @@ def fmt_on_disk(ctx, items, raw, recs):
     import fam_cli
     cand = []
     for i, (it, r) in enumerate(zip(items, raw)):
-        if r["outcome"] != "ok" or not r["p1"]["ok"] or it[3] not in ("syntax-rand", "syntax-exh", "loose", "repo"):
+        if r["outcome"] != "ok" or not r["p1"]["ok"] or it[3] not in ("syntax-rand", "syntax-exh", "loose", "repo", "handmade"):
             continue
         try:
             it[0].decode("utf8")
@@ -286,7 +307,7 @@ def fmt_on_disk(ctx, items, raw, recs):
             continue
         cand.append(i)
     rnd = random.Random(ctx.seed + 3)
-    special = [i for i in cand if b"%" in items[i][0] or b"\\" in items[i][0]]
+    special = [i for i in cand if items[i][3] == "handmade"] + [i for i in cand if b"%" in items[i][0] or b"\\" in items[i][0]]
     rnd.shuffle(cand)
     n = 300 if ctx.tier == "quick" else 3000
     pick = list(dict.fromkeys(special[: n // 2] + cand[:n]))[:n]
